@@ -14,6 +14,7 @@
   arbitrary interpretation), so nothing depends on rounding, NaN or ±Inf.
 -/
 import Gzx.Proofs.DetWhiteRect
+import Gzx.Proofs.DetQRDetector
 namespace Gzx.Properties.C06Det
 open Gzx Gzx.Det
 
@@ -148,5 +149,77 @@ def squareImg : Img := { w := 12, h := 12, pix := fun x y => decide (4 ≤ x ∧
 example : WRD.newAndDetect toyOps squareImg.rdGo 12 12 2 6 6 = .ok [(5, 5), (5, 6), (6, 5), (6, 6)] := by decide
 example : WRD.newAndDetect toyOps squareImg.rdGo 12 12 10 6 6 = .error .notFound := by decide
 example : ∃ d, WRD.new 12 12 2 6 6 = .ok d := ⟨_, rfl⟩
+
+/-! ## qrcode/detector -/
+
+/-- the row scan of `FinderPatternFinder.Find` is total: for every image (any width/height, also 0 or
+    negative), with or without TRY_HARDER, and every interpretation of the float operations — no panic
+    (`stateCount[currentState]` always has `0 ≤ currentState ≤ 4`), and the `for i` loop ends within
+    `maxI + 1` rows because the row index grows by at least one per round (`iSkip ≥ 1`; the mid-row skip
+    `i += rowSkip - stateCount[2] - iSkip` is taken only when `rowSkip > stateCount[2]`). -/
+theorem qr_scan_total {F : Type} (o : FOps F) (img : Img) (tryHarder : Bool) :
+    Sat NoFault (fun _ => True) (QR.findScan o img.rdGo img.h img.w tryHarder) :=
+  QR.findScan_sat o (rdGo_ok img) img.h img.w tryHarder
+
+/-- `FinderPatternFinder.Find` is total: three patterns or NotFoundException.  The only property of
+    float64 used: `math.MaxFloat64 == math.MaxFloat64` (so that `bestPatterns` is non-nil whenever
+    `distortion` has been lowered). -/
+theorem qr_find_total {F : Type} (o : FOps F) (hmax : QR.MaxEqSelf o) (img : Img) (tryHarder : Bool) :
+    Sat OnlyNotFound (fun _ => True) (QR.find o img.rdGo img.h img.w tryHarder) :=
+  QR.find_sat o hmax (rdGo_ok img) img.h img.w tryHarder
+
+theorem qr_find_never_panics {F : Type} (o : FOps F) (hmax : QR.MaxEqSelf o) (img : Img) (tryHarder : Bool) :
+    (∀ why, QR.find o img.rdGo img.h img.w tryHarder ≠ .error (.panic why)) ∧
+    QR.find o img.rdGo img.h img.w tryHarder ≠ .error .fuel :=
+  ⟨(qr_find_total o hmax img tryHarder).no_panic onlyNotFound_no_panic,
+   (qr_find_total o hmax img tryHarder).no_fuel onlyNotFound_no_fuel⟩
+
+/-- `CrossCheckVertical` / `CrossCheckHorizontal` for ANY start, fixed coordinate, `maxCount`, total (also
+    outside the image): a float, never a fault -/
+theorem qr_crosscheck_total {F : Type} (o : FOps F) (img : Img) (vertical : Bool) (maxP start q maxCount total : Int) :
+    Sat NoFault (fun _ => True) (QR.crossCheck o img.rdGo vertical maxP start q maxCount total) :=
+  QR.crossCheck_sat o (rdGo_ok img) vertical maxP start q maxCount total
+
+theorem qr_crosscheck_diagonal_total {F : Type} (o : FOps F) (img : Img) (centerI centerJ : Int) :
+    Sat NoFault (fun _ => True) (QR.crossCheckDiagonal o img.rdGo img.h img.w centerI centerJ) :=
+  QR.crossCheckDiagonal_sat o (rdGo_ok img) img.h img.w centerI centerJ
+
+/-- `calculateModuleSize` (the Bresenham walks of `sizeOfBlackWhiteBlackRun`, both ways, with the float
+    clamps) is total for any three points: each walk takes `max(|dx|,|dy|) + 1` steps -/
+theorem qr_module_size_total {F : Type} (o : FOps F) (img : Img) (tl tr bl : QR.FP F) :
+    Sat NoFault (fun _ => True) (QR.calculateModuleSize o img.rdGo img.w img.h tl tr bl) :=
+  QR.calculateModuleSize_sat o (rdGo_ok img) img.w img.h tl tr bl
+
+/-- `computeDimension`: the `dimension % 4` switch — a dimension that is 1 mod 4 (case 0: +1, case 2: -1),
+    NotFoundException for case 3; (a sum below 7 can only come from `int(NaN)`-like float results) -/
+theorem qr_compute_dimension {F : Type} (o : FOps F) (tl tr bl : QR.FP F) (ms : F) :
+    Sat OnlyNotFound (fun d => Int.tmod d 4 = 1 ∨ d < 7) (QR.computeDimension o tl tr bl ms) :=
+  QR.adjustDimension_sat _ _
+
+/-- `findAlignmentInRegion` (clamps + `AlignmentPatternFinder.Find`): a pattern or NotFoundException;
+    `stateCount[currentState]` of the alignment scan always has `0 ≤ currentState ≤ 2` -/
+theorem qr_alignment_total {F : Type} (o : FOps F) (img : Img) (ms : F) (estX estY : Int) (factor : F) :
+    Sat OnlyNotFound (fun _ => True) (QR.findAlignmentInRegion o img.rdGo img.w img.h ms estX estY factor) :=
+  QR.findAlignmentInRegion_sat o (rdGo_ok img) img.w img.h ms estX estY factor
+
+/-- **`Detector.Detect` up to the sampling call is total**: finder patterns, module size, dimension,
+    provisional version, alignment search — the outcome is NotFoundException, FormatException (a
+    dimension no version has) or a located symbol whose dimension is 21..177 and 1 mod 4, so the
+    subsequent `SampleGridWithTransform(image, dimension, dimension, …)` (C19) gets positive dimensions. -/
+theorem qr_detect_total {F : Type} (o : FOps F) (hmax : QR.MaxEqSelf o) (img : Img) (tryHarder : Bool) :
+    Sat QR.NotFoundOrFormat (fun r => Int.tmod r.2.dimension 4 = 1 ∧ 21 ≤ r.2.dimension ∧ r.2.dimension ≤ 177)
+      (QR.detect o img.rdGo img.w img.h tryHarder) :=
+  QR.detect_sat o hmax (rdGo_ok img) img.w img.h tryHarder
+
+theorem qr_detect_never_panics {F : Type} (o : FOps F) (hmax : QR.MaxEqSelf o) (img : Img) (tryHarder : Bool) :
+    (∀ why, QR.detect o img.rdGo img.w img.h tryHarder ≠ .error (.panic why)) ∧
+    QR.detect o img.rdGo img.w img.h tryHarder ≠ .error .fuel := by
+  have h := qr_detect_total o hmax img tryHarder
+  exact ⟨h.no_panic (fun w hw => by rcases hw with hw | hw <;> cases hw),
+         h.no_fuel (fun hw => by rcases hw with hw | hw <;> cases hw)⟩
+
+-- non-vacuity of the hypothesis: the toy interpretation satisfies it (IEEE binary64 does as well:
+-- MaxFloat64 is not a NaN)
+example : QR.MaxEqSelf toyOps := by unfold QR.MaxEqSelf; decide
 
 end Gzx.Properties.C06Det
